@@ -1,4 +1,4 @@
-WRAPS = ['add_constraint', 'set_obj', 'set_obj_fn', 'set_minim', 'set_maxim', 'set_unbounded', 'solve']
+WRAPS = ['add_constraint', 'set_obj', 'set_obj_fn', 'set_minim', 'set_maxim', 'set_unbounded', 'solve', 'get_ptr_variables']
 
 
 
@@ -12,7 +12,7 @@ def classify_crash(cr):
 
 SPEC = {
     'id': 'C15',
-    'lean_modules': ['AITB.Props.C15', 'AITB.Props.C15Gen', 'AITB.Props.C15Top', 'AITB.Props.C15Mdp', 'AITB.Props.C15Cex', 'AITB.Props.C15Flat', 'AITB.Props.C15Clean', 'AITB.Props.C15Facts', 'AITB.Props.C15Bp', 'AITB.Props.C15Obj', 'AITB.Props.C15Deleg', 'AITB.Props.C15Q'],
+    'lean_modules': ['AITB.Props.C15', 'AITB.Props.C15Gen', 'AITB.Props.C15Top', 'AITB.Props.C15Mdp', 'AITB.Props.C15Cex', 'AITB.Props.C15Flat', 'AITB.Props.C15Clean', 'AITB.Props.C15Facts', 'AITB.Props.C15Bp', 'AITB.Props.C15Obj', 'AITB.Props.C15Deleg', 'AITB.Props.C15Q', 'AITB.Props.C15Solve'],
     'theorems': [
         'AITB.FLP.weak_duality_sound',
         'AITB.FLP.optimalPair_sound',
@@ -79,6 +79,12 @@ SPEC = {
         'AITB.FLP.backProject_BMWF',
         'AITB.FLP.zip_foldl_zsum',
         'AITB.FLP.qModel_is_backup',
+        'AITB.FLP.lpSolve_point_only_if_accepted',
+        'AITB.FLP.lpSolveTraceOk_sound',
+        'AITB.FLP.lp_accept_codes_extracted',
+        'AITB.FLP.lpSolve_extracted_point_is_optimal',
+        'AITB.FLP.pointSat_zero_sound',
+        'AITB.FLP.accepted_point_certifies_bellman',
     ],
     'harness': 'harness/c15.cpp',
     # the calls LpSolveWrapper.cpp makes into lp_solve are recorded at link time (the library is not modified)
